@@ -240,7 +240,7 @@ var _ uuid.UUID
 //@ ensures [kind] isMin(ret.(*priorityQueue).queue)
 //@ ensures [own-cell] fresh(ret.(*priorityQueue).queue.(*minPriorityQueue))
 //@ ensures [len] len(qs(ret.(*priorityQueue).queue)) == len(items)
-//@ ensures [fresh] fresh(qs(ret.(*priorityQueue).queue)) || len(items) == 0
+//@ ensures [fresh] fresh(qs(ret.(*priorityQueue).queue))
 //@ modifies nothing
 
 //@ func utils.NewMaxPriorityQueue
@@ -251,7 +251,7 @@ var _ uuid.UUID
 //@ ensures [kind] isMax(ret.(*priorityQueue).queue)
 //@ ensures [own-cell] fresh(ret.(*priorityQueue).queue.(*maxPriorityQueue))
 //@ ensures [len] len(qs(ret.(*priorityQueue).queue)) == len(items)
-//@ ensures [fresh] fresh(qs(ret.(*priorityQueue).queue)) || len(items) == 0
+//@ ensures [fresh] fresh(qs(ret.(*priorityQueue).queue))
 //@ modifies nothing
 
 // ---------------------------------------------------------------------------------------------
